@@ -422,3 +422,20 @@ claim(
     "int() before it reaches ngettext (1.5 -> singular) — value-level, not decided.",
     "DESIGN.md section 5 C26",
 )
+
+claim(
+    "C13",
+    "HND+FLOW+TBL",
+    "static: who raises/catches the loop interrupts, sign facts of the islice bounds, None-tests of limit/offset, helper formula tables",
+    "Clauses: BreakLoop/ContinueLoop are raised only by the break/continue nodes and caught only "
+    "by for (as break/continue around each item's render), tablerow (interrupts flag) and, as "
+    "LiquidInterrupt, at template roots; both islice bounds in _slice are clamped into "
+    "[0, length] and only `stop is None` means 'to the end'; limit/offset/start/stop are never "
+    "tested by truthiness or defaulted with `or` (other than `or 0`); the reported length is "
+    "max(stop-start, 0), offset:continue uses the stop index stored under identifier-iterable, "
+    "reversed applies to the sliced items, for renders else iff the sliced length is 0; forloop "
+    "and tablerowloop helpers are the documented formulas of the running index.",
+    "Not decided: which items a particular collection/limit/offset combination yields, helper "
+    "values along a run, tablerow HTML geometry for every cols value (value level).",
+    "DESIGN.md section 5 C13",
+)
